@@ -23,7 +23,7 @@ use std::path::Path;
 use vhdl_lang::ast::{Designator, ExternalObjectClass};
 use vhdl_lang::{
     AnyEntKind, Concurrent, Config, EntHierarchy, EntRef, MessagePrinter, NullMessages, Object, Overloaded, Project,
-    Range, Token, Type,
+    Range, Source, Token, Type,
 };
 
 // ---- transcription of vhdl_ls/src/vhdl_server/semantic_tokens.rs `classify` (token type, modifiers) ----
@@ -196,6 +196,9 @@ fn main() {
             if let Some(source) = project.get_source(Path::new(file)) {
                 source.change(None, text);
                 project.update_source(&source);
+            } else {
+                // didOpen of a file that is not part of the project (nonProjectFiles = analyze, the default)
+                project.update_source(&Source::inline(Path::new(file), text));
             }
             project.analyse();
         }
